@@ -239,8 +239,14 @@ def nt_class(cls, n):
     """namedtuple class number cls with n fields; odd numbers are subclasses of a namedtuple class"""
     if (cls, n) not in _NT:
         if cls % 2 == 1:
-            # odd numbers: a strict subclass (same fields) of the namedtuple class numbered cls - 1
-            base = type(f'NTS{cls}_{n}', (nt_class(cls - 1, n),), {'__slots__': ()})
+            # odd numbers: a strict subclass (same fields) of the namedtuple class numbered cls - 1;
+            # numbers 3 mod 4 with a constructor of their own that takes the values positionally only
+            # (a validating / forwarding __new__: the field names are not keyword parameters)
+            ns = {'__slots__': ()}
+            if cls % 4 == 3:
+                parent = nt_class(cls - 1, n)
+                ns['__new__'] = lambda c, *coords, _p=parent: _p.__new__(c, *coords)
+            base = type(f'NTS{cls}_{n}', (nt_class(cls - 1, n),), ns)
         else:
             base = collections.namedtuple(f'NT{cls}_{n}', [f'f{i}' for i in range(n)])
         base._verif = (cls, n)
